@@ -32,6 +32,15 @@ CHECKS = {
              "of the C library's memcmp over keys the real encoder produced for boundary pairs, one-byte-different "
              "pairs, random pairs and tuples of 1..3 values.",
         ref="DESIGN.md 4/C05", technique="TLA+ order lemmas checked by TLC + TLC trace validation of memcmp over real keys"),
+    "C08": dict(
+        text="BitmapModel.tla checks exhaustively (universe 0..7, threshold 3) that the three-container design with "
+             "conversions and incremental cardinality refines a mathematical set under every history (the pre-fix "
+             "AddRange behaviour is a named switch that must yield a counterexample). BitmapWalks.tla enumerates all "
+             "histories of length 3 over an alphabet placed around 4095/4096/4097, long ranges and the universe edges; "
+             "each is executed on the real object and BitmapTrace.tla carries the abstract set as state and compares "
+             "return value, cardinality, emptiness, array export, iteration (order/duplicates), membership probes and "
+             "operand immutability after every step; seeded 40-step histories cross 4096 repeatedly.",
+        ref="DESIGN.md 4/C08", technique="TLA+ refinement model (TLC exhaustive) + TLC-enumerated histories replayed on the code + stateful TLC trace validation"),
     "C12": dict(
         text="AddModel.tla is the in-place-add state machine over slot memory; TLC explores all add histories to depth "
              "2 (quick) / 3 (thorough) from every documented length boundary, checks width/isolation invariants, and "
